@@ -8,7 +8,7 @@ git -C /repo worktree add -q --detach $WT HEAD || exit 1
 mkdir -p $WT/web/dist && echo '<html></html>' > $WT/web/dist/index.html
 pkgdir() {
   case "$1" in
-    bitmask) echo internal/tools/bitmask;; index|index_test) echo internal/index;; manager|manager_test) echo internal/index/manager;;
+    bitmask|bitmask_test) echo internal/tools/bitmask;; index|index_test) echo internal/index;; manager|manager_test) echo internal/index/manager;;
     converters|converters_test) echo internal/index/converters;; query|query_test) echo internal/query;;
     regexanalysis|regexanalysis_test) echo internal/tools/regexAnalysis;; main) echo cmd/pkappa2;; builder|builder_test) echo internal/index/builder;; *) echo "";;
   esac
